@@ -71,6 +71,9 @@ def check_method(ctx, m, vec, channel):
         payload = obj.marshal()
         ctx.calls(3)
     except Exception as exc:  # noqa
+        if corpus.beyond_domain(vec):
+            ctx.outcome('refused-beyond-depth-32')
+            return
         ctx.outcome('encode-raised')
         ctx.violation(fp, '{} refused spec-valid vector {}: {!r}'.format(
             m.name, short(list(vec), 300), exc), case, 'accepted', repr(exc))
@@ -136,6 +139,9 @@ def check_value(ctx, position, v, legacy=False):
         got = enc(arg)
         ctx.calls()
     except Exception as exc:  # noqa
+        if corpus.beyond_domain([arg]):
+            ctx.outcome('refused-beyond-depth-32')
+            return
         ctx.outcome('encode-raised')
         ctx.violation(fp, 'encoder refused {} at {}: {!r}'.format(
             short(v, 300), position, exc), case, 'accepted', repr(exc))
